@@ -28,6 +28,6 @@ def run(ctx):
     unsafe_codec.skipper_tables(rep, 'R07.d', prog, cg)
     rep.floor('R07.c', 28)
     rep.floor('R07.a', 10)
-    rep.floor('R07.e', 20)
+    rep.floor('R07.e', 16)
     rep.floor('R07.d', 10)
     return rep
